@@ -37,6 +37,10 @@ type Program struct {
 	allFns  map[*ssa.Function]bool
 	srcFns  []*ssa.Function // functions with bodies in acra packages (incl. anonymous)
 	fnByObj map[types.Object]*ssa.Function
+
+	callIdx     map[token.Pos]*ast.CallExpr
+	siteCallees map[ssa.CallInstruction][]*ssa.Function
+	fnCallers   map[*ssa.Function][]ssa.CallInstruction
 }
 
 // LoadOpts selects what is loaded.
@@ -167,7 +171,7 @@ func (p *Program) index() {
 		if fn.Blocks == nil || fn.Pkg == nil && fn.Parent() == nil && fn.Origin() == nil {
 			// keep wrappers/synthetics out of srcFns but index objects
 		}
-		if obj := fn.Object(); obj != nil {
+		if obj := fn.Object(); obj != nil && fn.Synthetic == "" {
 			if _, dup := p.fnByObj[obj]; !dup {
 				p.fnByObj[obj] = fn
 			}
@@ -211,7 +215,7 @@ func (p *Program) SrcFuncs(pkgs ...string) []*ssa.Function {
 	for _, fn := range p.srcFns {
 		pp := strings.TrimPrefix(fnPkgPath(fn), acraMod+"/")
 		for _, want := range pkgs {
-			if pp == want || strings.HasSuffix(want, "/...") && (pp == strings.TrimSuffix(want, "/...") || strings.HasPrefix(pp, strings.TrimSuffix(want, "...")) ) {
+			if pp == want || strings.HasSuffix(want, "/...") && (pp == strings.TrimSuffix(want, "/...") || strings.HasPrefix(pp, strings.TrimSuffix(want, "..."))) {
 				out = append(out, fn)
 				break
 			}
@@ -242,10 +246,7 @@ func (p *Program) Func(spec string) *ssa.Function {
 	if obj == nil {
 		return nil
 	}
-	if fn := p.fnByObj[obj]; fn != nil {
-		return fn
-	}
-	return p.SSA.FuncValue(obj)
+	return p.Func2(obj)
 }
 
 // FuncObj resolves a spec as in Func to its types.Func.
@@ -353,4 +354,30 @@ func (p *Program) FuncDecl(obj *types.Func) (*ast.FuncDecl, *packages.Package) {
 		}
 	}
 	return nil, pk
+}
+
+// Func2 returns the SSA function of a types.Func.
+func (p *Program) Func2(obj *types.Func) *ssa.Function {
+	if fn := p.SSA.FuncValue(obj); fn != nil {
+		return fn
+	}
+	return p.fnByObj[obj]
+}
+
+// callExprAt finds the *ast.CallExpr whose Lparen is at pos (ssa.Call.Pos()).
+func (p *Program) callExprAt(pos token.Pos) *ast.CallExpr {
+	if p.callIdx == nil {
+		p.callIdx = map[token.Pos]*ast.CallExpr{}
+		for _, pk := range p.Acra {
+			for _, f := range pk.Syntax {
+				ast.Inspect(f, func(n ast.Node) bool {
+					if c, ok := n.(*ast.CallExpr); ok {
+						p.callIdx[c.Lparen] = c
+					}
+					return true
+				})
+			}
+		}
+	}
+	return p.callIdx[pos]
 }
